@@ -791,3 +791,16 @@ GROUPS["p11"] += [
       "        let mut seen_wide;\n" + _SP_OLD.replace("            for space in sentence.iter_spaces() {", "            seen_wide = false;\n            for space in sentence.iter_spaces() {").replace("if count > 1 {", "if count > 1 && !seen_wide {\n                    seen_wide = count > 200;"),
       None),
 ]
+
+# C07: user dictionary answered from a process-wide memo (the shape of seeded/C07-d) / same load written with a match
+_LUD_OLD = "        load_dict(&config.user_dict_path)\n            .await\n            .map_err(|err| info!(\"{err}\"))\n            .unwrap_or(MutableDictionary::new())\n    }\n\n    async fn save_user_dictionary"
+GROUPS["g23"] += [
+    E("c07-user-dict-memo", ["C07"], "harper-ls/src/backend.rs", _LUD_OLD,
+      "        static MEMO: std::sync::OnceLock<MutableDictionary> = std::sync::OnceLock::new();\n        if let Some(d) = MEMO.get() {\n            return d.clone();\n        }\n        let d = load_dict(&config.user_dict_path)\n            .await\n            .map_err(|err| info!(\"{err}\"))\n            .unwrap_or(MutableDictionary::new());\n        let _ = MEMO.set(d.clone());\n        d\n    }\n\n    async fn save_user_dictionary",
+      "R-C07-reload:Backend::load_user_dictionary"),
+]
+GROUPS["p11"] += [
+    E("p-c07-user-dict-load-match", ["C07"], "harper-ls/src/backend.rs", _LUD_OLD,
+      "        match load_dict(&config.user_dict_path).await {\n            Ok(d) => d,\n            Err(err) => {\n                info!(\"{err}\");\n                MutableDictionary::new()\n            }\n        }\n    }\n\n    async fn save_user_dictionary",
+      None),
+]
